@@ -198,8 +198,8 @@ impl Prop for C07 {
             11 => {
                 let want = match s.chars().next() {
                     None => Want::AnyError,
-                    Some(c) if (c as u32) <= 32767 => Want::Num(c as i64),
-                    Some(_) => Want::Skip,
+                    // (codes above 32767 do not fit an Integer: the result is then a Single, still exact)
+                    Some(c) => Want::Num(c as i64),
                 };
                 (format!("ASC({})", lit(&s)), want, "ASC")
             }
